@@ -729,6 +729,37 @@ def gen_objstm(rng):
     return L('objstm', D(ents), xb(payload)), {'kind': 'objstm', 'nontrivial': True}
 
 
+def gen_objstm_overlap(rng):
+    """members that share bytes (the overlap limit of ObjectStream::new, /repo fix of C04-objstm-shared-offsets): k pairs whose
+    offsets lie inside one long object or where no object starts; k and the lengths are drawn around the limit
+    MAX_MEMBER_OVERLAP * |content| so that both answers (the members / InvalidObjectStream) occur"""
+    k = rng.randint(1, 12)
+    m = rng.choice([5, 20, 60, 90, 150, 400])
+    shape = rng.choice(['string', 'array', 'fail', 'stairs', 'mixed'])
+    if shape == 'string':
+        body = b'(' + b'a' * m + b')' + rng.choice([b'', b' ', b'\n%c\n'])
+        offs = [0] * k
+    elif shape == 'array':
+        body = b'[' + b'0 ' * (m // 2) + b']'
+        offs = [rng.choice([0, 0, 0, 1, 3]) for _ in range(k)]
+    elif shape == 'fail':
+        body = rng.choice([b'[' + b'0 ' * (m // 2), b'(' + b'a' * m, b'<<' + b'/K 1' * (m // 4)])
+        offs = [rng.choice([0, 0, 1]) for _ in range(k)]
+    elif shape == 'stairs':
+        d = rng.randint(2, 10)
+        body = b'[' * d + b'0 ' * (m // 2) + b']' * d
+        offs = [i % d for i in range(k)]
+    else:
+        body = b'(' + b'a' * m + b') [' + b'1 ' * (m // 3) + b'] /N'
+        offs = [rng.choice([0, 0, m + 3, m + 3, len(body) - 2, 1]) for _ in range(k)]
+    hsep = lambda: rng.choice([b' ', b' ', b'\n', b'\x00'])
+    hdr = b''.join(b'%d' % rng.randint(1, 40) + hsep() + b'%d' % o + hsep() for o in offs)
+    payload = hdr + body
+    ents = [(b'Type', N(b'ObjStm')), (b'N', I(k)), (b'First', I(len(hdr)))]
+    rng.shuffle(ents)
+    return L('objstm', D(ents), xb(payload)), {'kind': 'objstm', 'nontrivial': True}
+
+
 def gen_ahx(rng):
     """ASCIIHexDecode: legal encodings (either case, white-space anywhere, odd final digit, EOD, anything after EOD) with the
     plain text for the direct verdict; and damaged ones (illegal characters, no EOD) for the correspondence"""
@@ -802,6 +833,8 @@ def gen_cases(rng, tier):
         cases.append(gen_xreftable(rng))
         cases.append(gen_objstm(rng))
     for _ in range(m // 2):
+        cases.append(gen_objstm_overlap(rng))
+    for _ in range(m // 2):
         cases.append(gen_ahx(rng))
     return cases
 
@@ -824,7 +857,7 @@ def compare(model, impl):
 
 
 SPEC = {
-    'gen_parts': ['Lex', 'Filters'],
+    'gen_parts': ['Lex', 'Filters', 'ObjStmC'],
     'allowed_axioms': (),
     'runner': 'c02',
     'bin': 'c02',
